@@ -1,18 +1,20 @@
 #!/bin/bash
-# runs every seeded change against the quick check of its property (scratch worktrees), writes seeded/RESULTS.md
+# runs every seeded change against the quick check of its property (scratch worktrees, ${PAR:-3} at a time), writes seeded/RESULTS.md
 cd "$(dirname "$0")/.."
 out=seeded/RESULTS.md
-echo "| seeded | property | status | quick check exit | first violation key |" > $out.tmp
-echo "|---|---|---|---|---|" >> $out.tmp
-for d in seeded/*/; do
-  n=$(basename $d); [ -f $d/meta.json ] || continue
+tmp=$(mktemp -d /tmp/matrix_XXXXXX)
+one() {
+  n=$1; d=seeded/$n; tmp=$2
   pid=$(echo $n | cut -c1-3)
   st=$(jq -r '.status // "active"' $d/meta.json | cut -c1-8)
-  if [ "$st" != "active" ]; then echo "| $n | $pid | obsolete (see meta.json) | - | - |" >> $out.tmp; continue; fi
+  if [ "$st" != "active" ]; then echo "| $n | $pid | obsolete (see meta.json) | - | - |" > $tmp/$n.row; return; fi
   res=$(tools/try_seeded.sh $n $pid 2>&1)
   rc=$(echo "$res" | grep -o "rc=[0-9]*" | tail -1)
   key=$(echo "$res" | grep -o "key=[^ ]*" | head -1 | cut -c1-90)
-  echo "| $n | $pid | active | $rc | \`$key\` |" >> $out.tmp
+  echo "| $n | $pid | active | $rc | \`$key\` |" > $tmp/$n.row
   echo "$n $rc $key"
-done
-mv $out.tmp $out
+}
+export -f one
+ls seeded | while read n; do [ -f seeded/$n/meta.json ] && echo $n; done | xargs -P ${PAR:-3} -I{} bash -c "one {} $tmp"
+{ echo "| seeded | property | status | quick check exit | first violation key |"; echo "|---|---|---|---|---|"; cat $tmp/*.row; } > $out
+rm -rf $tmp
